@@ -1,6 +1,7 @@
 package main
 
 import (
+	"math"
 	"fmt"
 	"go/types"
 	"strings"
@@ -485,4 +486,39 @@ func init() {
 	nopm := func(fr *Frame, c *ssa.CallCommon, set map[string]bool) {}
 	specialModPrefixes["slices.Contains"] = nopm
 	specialModPrefixes["slices.Equal"] = nopm
+}
+
+// ---- floating point helpers (C19) ----
+func init() {
+	nopm := func(fr *Frame, c *ssa.CallCommon, set map[string]bool) {}
+	specials["math.Trunc"] = func(fr *Frame, site ssa.Instruction, fn *ssa.Function, args []*Term, st *State) []*Term {
+		return []*Term{app("fp.roundToIntegral", leaf("RTZ"), args[0])}
+	}
+	specials["math.Round"] = func(fr *Frame, site ssa.Instruction, fn *ssa.Function, args []*Term, st *State) []*Term {
+		return []*Term{app("fp.roundToIntegral", leaf("RNA"), args[0])}
+	}
+	specials["math.Pow"] = func(fr *Frame, site ssa.Instruction, fn *ssa.Function, args []*Term, st *State) []*Term {
+		vc := fr.vc
+		d := "(declare-fun gopow (Float64 Float64) Float64)"
+		if !vc.declSeen[d] {
+			vc.decl(d)
+			// table of the values math.Pow(10, i) for i in -4..4, computed by the Go runtime of this build
+			for i := -4; i <= 4; i++ {
+				vc.axioms = append(vc.axioms, fmt.Sprintf("(assert (= (gopow %s %s) %s)) ; math.Pow(10,%d)", fpLit(10), fpLit(float64(i)), fpLit(math.Pow(10, float64(i))), i))
+			}
+			vc.assumptions["math.Pow(10, i) for i in -4..4: table computed by the Go runtime at check time; other arguments uninterpreted"] = true
+		}
+		return []*Term{app("gopow", args[0], args[1])}
+	}
+	specials["strconv.FormatFloat"] = func(fr *Frame, site ssa.Instruction, fn *ssa.Function, args []*Term, st *State) []*Term {
+		fr.vc.decl("(declare-fun fmtfloat (Float64) Int)")
+		return []*Term{app("fmtfloat", args[0])}
+	}
+	specials["strings.IndexByte"] = func(fr *Frame, site ssa.Instruction, fn *ssa.Function, args []*Term, st *State) []*Term {
+		fr.vc.decl("(declare-fun indexbyte (Int Int) Int)")
+		return []*Term{app("indexbyte", args[0], args[1])}
+	}
+	for _, n := range []string{"math.Trunc", "math.Round", "math.Pow", "strconv.FormatFloat", "strings.IndexByte"} {
+		specialMods[n] = nopm
+	}
 }
